@@ -316,7 +316,19 @@ class CallsMixin:
                 st.assume(z3.Or(pos) if len(pos) > 1 else pos[0])
                 raise PanicEx('callee %s may panic' % key)
         self.bump_top(st)             # the callee may allocate
-        if havoc_oids and self.frame and self.frame.contract:
+        # a function literal handed to the callee may be run by it any number of times: the variables of the caller that
+        # the literal's body assigns are unknown afterwards
+        lit_oids = set()
+        for a in (e.get('Args') or []):
+            an = a
+            while an.get('_') == 'ParenExpr': an = an['X']
+            if an.get('_') == 'FuncLit':
+                vs, fs, calls = set(), set(), []
+                self.assigned_in(an.get('Body'), vs, fs, calls)
+                lit_oids |= {o for o in vs if o in st.env}
+        if lit_oids:
+            havoc_oids = sorted(set(havoc_oids) | lit_oids, key=str)
+        if havoc_oids and self.frame and self.frame.contract and not lit_oids:
             for cl in self.frame.contract.get('after'):
                 for g in re.findall(r'\bghost\s+(\w+)\s*\(', cl.text):
                     cur = self.ghost_read(st, g, z3.IntVal(0))
